@@ -43,7 +43,12 @@ class Resolver:
     def __init__(self, ix: Index, include_pyspark: bool = False):
         self.ix = ix
         self.include_pyspark = include_pyspark
-        self.registry = backend_registry(ix)
+        try:
+            self.registry = backend_registry(ix)
+        except Exception:
+            if ix.root != "<memory>":
+                raise
+            self.registry = {}
         self._callable_lists: Dict[str, Dict[str, List[ast.expr]]] = {}
         self.stats = {"calls": 0, "resolved": 0, "by_kind": {}}
 
